@@ -82,19 +82,21 @@ def lzma2_dict(p: int) -> int:
     return 0xFFFFFFFF if p == 40 else (2 | (p & 1)) << (p // 2 + 11)
 
 
-def encode(coder: str, data: bytes, dict_size: int = 1 << 16):
-    """-> (packed bytes, coder id, property bytes | None)."""
+def encode(coder: str, data: bytes, dict_size: int = 1 << 16, declared: int | None = None):
+    """-> (packed bytes, coder id, property bytes | None).  `declared`: dictionary size written into the coder
+    properties (>= the one used for encoding: what a packer run with a large dictionary on small input declares)."""
     if coder == "copy":
         return data, COPY, None
     if coder == "lzma":
         lc, lp, pb = 3, 0, 2
         f = [{"id": lzma.FILTER_LZMA1, "dict_size": dict_size, "lc": lc, "lp": lp, "pb": pb}]
         return (lzma.compress(data, format=lzma.FORMAT_RAW, filters=f), LZMA,
-                bytes([(pb * 5 + lp) * 9 + lc]) + struct.pack("<I", dict_size))
+                bytes([(pb * 5 + lp) * 9 + lc]) + struct.pack("<I", max(declared or 0, dict_size)))
     if coder == "lzma2":
         p = lzma2_prop(dict_size)
         f = [{"id": lzma.FILTER_LZMA2, "dict_size": lzma2_dict(p)}]
-        return lzma.compress(data, format=lzma.FORMAT_RAW, filters=f), LZMA2, bytes([p])
+        return (lzma.compress(data, format=lzma.FORMAT_RAW, filters=f), LZMA2,
+                bytes([max(p, lzma2_prop(min(declared, 0xFFFFFFFF))) if declared else p]))
     raise ValueError(coder)
 
 
@@ -106,12 +108,13 @@ def decode(coder_id: bytes, props, packed: bytes, unpack_size: int) -> bytes:
         d = props[0]
         lc, rem = d % 9, d // 9
         lp, pb = rem % 5, rem // 5
-        f = [{"id": lzma.FILTER_LZMA1, "dict_size": max(4096, struct.unpack("<I", props[1:5])[0]),
+        f = [{"id": lzma.FILTER_LZMA1, "dict_size": min(max(4096, struct.unpack("<I", props[1:5])[0]), 1 << 26),
               "lc": lc, "lp": lp, "pb": pb}]
         dec = lzma.LZMADecompressor(format=lzma.FORMAT_RAW, filters=f)
         return dec.decompress(packed, max_length=unpack_size)
     if coder_id == LZMA2:
-        f = [{"id": lzma.FILTER_LZMA2, "dict_size": max(4096, lzma2_dict(props[0]))}]
+        f = [{"id": lzma.FILTER_LZMA2, "dict_size": min(max(4096, lzma2_dict(props[0])), 1 << 26)}]   # validation only:
+        # this writer never encodes with more than 64 MiB, whatever the properties declare
         return lzma.LZMADecompressor(format=lzma.FORMAT_RAW, filters=f).decompress(packed)
     raise ValueError(coder_id)
 
@@ -469,7 +472,7 @@ def roundtrip_check(data: bytes) -> None:
 
 # ------------------------------------------------------------------ the writer
 def write_7z(entries, folders, *, coders="lzma2", encode_header=False, gap=0, dict_size=1 << 16,
-             attrs=True, mtime=False, always_nums=False, corrupt=None):
+             attrs=True, mtime=False, always_nums=False, corrupt=None, declared_dict=None):
     """entries: [{"name": str, "kind": "file" | "dir" | "empty" | "anti" | "nostream", "data": bytes}]
     ("anti" = anti-item: an entry without stream whose kAnti bit is set)
     folders: [[entry index, ...], ...]  (ordered partition of the "file" entries, in entry order)
@@ -483,7 +486,7 @@ def write_7z(entries, folders, *, coders="lzma2", encode_header=False, gap=0, di
     for fi, (idxs, coder) in enumerate(zip(folders, coders)):
         chunks = [entries[i]["data"] for i in idxs]
         raw = b"".join(chunks)
-        packed, cid, props = encode(coder, raw, dict_size)
+        packed, cid, props = encode(coder, raw, dict_size, declared_dict)
         if corrupt and corrupt[0] == "trunc" and corrupt[1] == fi:
             packed = packed[:max(1, len(packed) - corrupt[2])]
         if corrupt and corrupt[0] == "flip" and corrupt[1] == fi:
